@@ -33,7 +33,8 @@ Definition run_C17 (op : Z) (args : list val) : val :=
       | Some p =>
           VList [vres (fun _ => VInt 0) (check_pow (cp_pow_limit p) h c);
                  if (length h =? 32)%nat && (0 <=? c) && (c <? 2^32) then
-                   judge impl (if pow_okb (cp_pow_limit p) h c then VInt 0 else verr CheckPowErr)
+                   (* the SPEC side judges with the consensus limit of the chain, not with the regenerated one *)
+                   judge impl (if pow_okb (nth (Z.to_nat chain) consensus_pow_limits 0) h c then VInt 0 else verr CheckPowErr)
                  else unconstrained]
       | None => bad_args
       end
